@@ -418,6 +418,42 @@ Proof.
   intros Hs H. apply serve_is_commit_log in H. subst wl'. apply writelog_correct_lem. exact Hs.
 Qed.
 
+(* ---------- rejected commit attempts ---------- *)
+Lemma run_history_ops_lem old hs : run_history old hs = run_batch old (ops_of hs).
+Proof.
+  unfold run_history, run_batch. generalize (open_tree old).
+  induction hs as [|[o|] r IH]; intros s; cbn [fold_left ops_of hstep]; [reflexivity| |]; apply IH.
+Qed.
+
+(* the log stored by the next successful commit, over a history with any
+   number of rejected attempts: applied to the contents of the last SUCCESSFUL
+   commit it gives the current contents, and it names every key whose binding
+   differs from then *)
+Lemma history_log_correct_lem old hs : sorted old ->
+  apply_writelog old (commit_writelog (run_history old hs)) = contents (run_history old hs) /\
+  NoDup (map fst (commit_writelog (run_history old hs))) /\
+  (forall k, get k (contents (run_history old hs)) <> get k old ->
+             In k (map fst (commit_writelog (run_history old hs)))).
+Proof.
+  intros Hs. rewrite run_history_ops_lem. split; [apply writelog_correct_lem; exact Hs|].
+  split; [apply writelog_keys_nodup_lem|]. intros k. apply writelog_complete_lem.
+Qed.
+
+(* forgetting the pending log at a rejected attempt loses entries: the model
+   of that variant, refuted *)
+Definition hstep_forgetful (s : tstate) (h : hop) : tstate :=
+  match h with
+  | HOp o => step s o
+  | HRejected => mkTs (ts_tree s) []
+  end.
+Example forgetful_rejected_commit_refuted :
+  let old : kvmap := [([97], [1])] in
+  let hs := [HOp (OInsert [98] [2]); HRejected; HOp (OInsert [99] [3])] in
+  let s := fold_left hstep_forgetful hs (open_tree old) in
+  apply_writelog old (commit_writelog s) <> contents s /\
+  apply_writelog old (commit_writelog (run_history old hs)) = contents (run_history old hs).
+Proof. cbv zeta. split; vm_compute; [discriminate|reflexivity]. Qed.
+
 (* ---------- multi-hop answers ---------- *)
 Lemma apply_writelog_app old wl1 wl2 :
   apply_writelog old (wl1 ++ wl2) = apply_writelog (apply_writelog old wl1) wl2.
